@@ -213,14 +213,20 @@ func (obj *Flavor) inheritFlavor(cf *Flavor) {
 	}
 	for k, im := range cf.methods {
 		m := obj.methods[k]
-		if m == nil {
-			m = &slip.Method{
-				Name: k,
-				Doc:  im.Doc,
-			}
-			obj.methods[k] = m
-		}
 		for _, ic := range im.Combinations {
+			if ic.From == &vanilla && cf != &vanilla {
+				// The vanilla-flavor combinations are added when the
+				// vanilla-flavor itself is inherited, after all other
+				// flavors, so they stay last in the precedence order.
+				continue
+			}
+			if m == nil {
+				m = &slip.Method{
+					Name: k,
+					Doc:  im.Doc,
+				}
+				obj.methods[k] = m
+			}
 			if !m.HasMethodFromClass(ic.From.Name()) {
 				m.Combinations = append(m.Combinations, ic)
 			}
